@@ -240,7 +240,8 @@ def run(chk):
         if not ok:
             chk.finding(key + "|opaque", rule="R-OPAQUE", where="%s:%s" % (b.file, ct["line"]), fn=key, what=what)
     # ------------------------------------------------------------------ R-TOPMOST
-    tlocals = [l for l in range(b.argc + 1, len(b.locals)) if b.lname(l) == "transparent_char" and b.tys(l).startswith("std::option::Option")]
+    # the remembered topmost transparent cell: the user variable of type Option<AttributedChar> (whatever it is called)
+    tlocals = [l for l in range(b.argc + 1, len(b.locals)) if b.lname(l) and b.tys(l).startswith("std::option::Option<attributed_char::AttributedChar")]
     nstores = 0
     if chk.anchor(len(tlocals) == 1, "R-TOPMOST", "the Option local `transparent_char`"):
         tl = tlocals[0]
